@@ -610,6 +610,11 @@ func formSchema(t *rapid.T) (M, M) {
 			enc["l"] = M{"style": "spaceDelimited", "explode": false}
 		}
 	}
+	if rapid.IntRange(0, 2).Draw(t, "typeless") == 0 {
+		// members without a type of their own: compositions of primitives
+		props["t"] = M{"anyOf": []any{M{"type": "integer"}, M{"type": "string"}}}
+		props["u"] = M{"allOf": []any{M{"type": "string", "minLength": 1.0}}}
+	}
 	s := M{"type": "object", "properties": props}
 	if rapid.Bool().Draw(t, "req") {
 		s["required"] = []any{"a"}
